@@ -14,7 +14,7 @@ greenlets, custom items with and without frames.
 import random
 
 from . import frames_gen as G
-from .c05 import acyclic
+from .c05 import acyclic, forget_synthetic_classes
 
 PROP = "C16"
 IMPORTS = "From SS Require Import Base M_Frames."
@@ -182,6 +182,13 @@ def outermost_contract(x, st, **opts):
 
 
 def run_case(desc):
+    try:
+        return _run_case(desc)
+    finally:
+        forget_synthetic_classes()
+
+
+def _run_case(desc):
     import stackscope
     if desc["mode"] == "outermost":
         obs = G.run_impl(desc)
